@@ -10,6 +10,8 @@ import QV.Proofs.ScanTsigCont
 import QV.Proofs.ServerResp
 import QV.Proofs.ServerTsig
 import QV.Proofs.FrameServer
+import QV.Proofs.ServerProps
+import QV.Properties.C01
 
 namespace QV.ServerScan
 open QV QV.Wire QV.Reader QV.Writer
@@ -258,6 +260,30 @@ theorem signed_response_list (macFn : Writer.Tsig → List UInt8 → List UInt8)
       | true => simp [qOctets, u16be, optEnc_some, optRecord_spec _ _ (Or.inl rfl)]
   rw [hpre] at hmac h4 h5
   exact ⟨hmac, oe, sT, h1, h2, h3, h4, h5⟩
+
+/-- the OPT record before the TSIG record of a signed no-data response -/
+def signedOptOctets (serverSize : Nat) (sc : Spec.Server.Scan) : List UInt8 :=
+  if sc.edns then [0, 0, 41] ++ u16be serverSize ++ [0, 0, 0, 0, 0, 0] else []
+
+/-- field by field: what a response that starts with `signedPrefix` says -/
+theorem signedResp_facts (req : Bytes) (p : Nat) (sc : Spec.Server.Scan) (rc : Nat) (T : List UInt8) (b : Bytes)
+    (hb : b.toList = signedPrefix req p sc rc ++ T) :
+    Spec.Server.hdr b 0 = Spec.Server.hdr req 0 ∧
+    b.getD 2 0 = hdr2 (req.getD 2 0) ∧ b.getD 3 0 = UInt8.ofNat rc ∧
+    Spec.Server.hdr b 4 = (if sc.question.isSome then 1 else 0) ∧ Spec.Server.hdr b 6 = 0 ∧
+    Spec.Server.hdr b 8 = 0 ∧ Spec.Server.hdr b 10 = (if sc.edns then 2 else 1) ∧
+    b.toList.drop 12 = specQuestionOctets sc.question ++ signedOptOctets p sc ++ T := by
+  have hq : qOctets sc.question = specQuestionOctets sc.question := by
+    cases sc.question <;> simp [qOctets, specQuestionOctets]
+  have hb' : b.toList = [req.getD 0 0, req.getD 1 0, hdr2 (req.getD 2 0), UInt8.ofNat rc, 0,
+       (if sc.question.isSome then 1 else 0), 0, 0, 0, 0, 0, (if sc.edns then 2 else 1)] ++
+      (specQuestionOctets sc.question ++ signedOptOctets p sc ++ T) := by
+    rw [hb]; unfold signedPrefix signedOptOctets hdr2; rw [hq]; simp only [List.append_assoc]
+  refine ⟨?_, ?_, ?_, ?_, ?_, ?_, ?_, by rw [hb']; simp⟩
+  all_goals simp only [Spec.Server.hdr, getD_toList, hb']
+  all_goals simp
+  · cases sc.question <;> simp
+  · cases sc.edns <;> simp
 
 /-! ### `handle_message` on authenticated requests that get a no-data response -/
 
@@ -557,6 +583,101 @@ theorem tsig_error_response (cfg : Server.Cfg) (tr : Server.Transport) (now bufL
     exact ⟨oe, sT, q1, q2, q4, q5⟩
   · rw [hfin] at h4; cases h4
   · rw [hfin] at h4; cases h4
+
+/-! ### a response exists (C01: `handle_message` does not panic) -/
+
+/-- a request whose scan reaches a well-formed TSIG record always gets a response — for a
+    well-formed configuration and a clock below 2^48 s (the hypotheses of C01) -/
+theorem signed_response_exists (cfg : Server.Cfg) (hcfg : ServerSafety.CfgWF cfg) (tr : Server.Transport)
+    (now bufLen : Nat) (req : Bytes)
+    (hbuf : minBuf tr cfg.payload ≤ bufLen) (hpay : 512 ≤ cfg.payload) (hreq : req.size ≤ Rdata.USIZE_MAX)
+    (hnow : now < 2^48)
+    (hr : (Spec.Server.specScanWith (catKind cfg) cfg.payload req).respond = true)
+    (hv : (Spec.Server.specScanWith (catKind cfg) cfg.payload req).verdict = .tsigReached) :
+    ∃ b, Server.handleMessage cfg tr now bufLen req = .ok (some b) := by
+  have hnp := C01.C01_holds cfg tr now bufLen req hcfg
+    ⟨hbuf, hnow, by unfold Rdata.USIZE_MAX at hreq; omega⟩
+  obtain ⟨t, mw, r', question, _, _, _, h4⟩ := handleMessage_tsig_eq cfg tr now bufLen req hbuf hpay hreq hr hv
+  rw [h4] at hnp ⊢
+  unfold afterTsig at hnp ⊢
+  generalize Server.tsigAfter cfg now t mw r' (preTsigState cfg tr bufLen req) = X at hnp ⊢
+  rcases X with ⟨(o | e | _), S⟩
+  · cases o with
+    | none =>
+      simp only at hnp ⊢
+      generalize Writer.finish S Server.macFn = f at hnp ⊢
+      rcases f with ⟨bytes, mac⟩ | e | _
+      · exact ⟨bytes, rfl⟩
+      · exact absurd rfl hnp
+      · exact absurd rfl hnp
+    | some r'' =>
+      simp only at hnp ⊢
+      by_cases hans : endVerdict (catKind cfg) req.size
+          (Spec.Server.specScanWith (catKind cfg) cfg.payload req).question r'.cursor
+          ((req.getD 2 0).toNat / 8 % 16) = .answer
+      · rw [if_pos hans] at hnp ⊢
+        rw [bind_apply] at hnp ⊢
+        generalize Server.handleQuery cfg question tr S = Y at hnp ⊢
+        rcases Y with ⟨(u | e | _), w1⟩
+        · simp only [pure_apply] at hnp ⊢
+          generalize Writer.finish w1 Server.macFn = f at hnp ⊢
+          rcases f with ⟨bytes, mac⟩ | e | _
+          · exact ⟨bytes, rfl⟩
+          · exact absurd rfl hnp
+          · exact absurd rfl hnp
+        · exact absurd rfl hnp
+        · exact absurd rfl hnp
+      · rw [if_neg hans] at hnp ⊢
+        simp only at hnp ⊢
+        generalize Writer.finish _ Server.macFn = f at hnp ⊢
+        rcases f with ⟨bytes, mac⟩ | e | _
+        · exact ⟨bytes, rfl⟩
+        · exact absurd rfl hnp
+        · exact absurd rfl hnp
+  · exact absurd rfl hnp
+  · exact absurd rfl hnp
+
+/-- a no-data response to a signed request: the RCODE, no answer, no authority, AA and TC clear, and
+    after the question nothing but the OPT record (iff the scan reached one) and then the TSIG record
+    (TYPE 250, CLASS ANY, TTL 0; its owner `oe` is the key name literally or compressed) -/
+structure SignedNoData (p : Nat) (sc : Spec.Server.Scan) (rc : Nat) (b : Bytes) : Prop where
+  rcode : Spec.Server.hdr b 2 % 16 = rc
+  an : Spec.Server.hdr b 6 = 0
+  ns : Spec.Server.hdr b 8 = 0
+  ar : Spec.Server.hdr b 10 = (if sc.edns then 2 else 1)
+  aa : Spec.Server.hdr b 2 / 1024 % 2 = 0
+  tc : Spec.Server.hdr b 2 / 512 % 2 = 0
+  rest : ∃ oe ts mac, NameShape ts.rr.keyName oe ∧
+    b.toList.drop 12 = specQuestionOctets sc.question ++ signedOptOctets p sc ++ tsigRecordOctets oe ts mac
+
+theorem signedNoData_of_list (req : Bytes) (p : Nat) (sc : Spec.Server.Scan) (rc : Nat) (hrc : rc < 16)
+    (oe : List UInt8) (ts : Writer.Tsig) (mac : Option (List UInt8)) (hsh : NameShape ts.rr.keyName oe) (b : Bytes)
+    (hb : b.toList = signedPrefix req p sc rc ++ tsigRecordOctets oe ts mac) : SignedNoData p sc rc b := by
+  obtain ⟨_, h2, h3, _, han, hns, har, hrest⟩ := signedResp_facts req p sc rc _ b hb
+  obtain ⟨_, _, f3, f4, _, _, _, f8⟩ := flags_facts b req rc hrc h2 h3
+  exact ⟨f8, han, hns, har, f3, f4, oe, ts, mac, hsh, hrest⟩
+
+/-- **signed requests, no-data verdicts: the response exists and is a `SignedNoData`** (well-formed
+    configuration, clock below 2^48 s: the hypotheses of C01) -/
+theorem signed_noData_full (cfg : Server.Cfg) (hcfg : ServerSafety.CfgWF cfg) (tr : Server.Transport)
+    (now bufLen : Nat) (req : Bytes)
+    (hbuf : minBuf tr cfg.payload ≤ bufLen) (hpay : 512 ≤ cfg.payload) (hreq : req.size ≤ Rdata.USIZE_MAX)
+    (hnow : now < 2^48)
+    (hr : (Spec.Server.specScanWith (catKind cfg) cfg.payload req).respond = true)
+    (hv : (Spec.Server.specScanWith (catKind cfg) cfg.payload req).verdict = .tsigReached) :
+    ∃ (t : Tsig.ReadTsigRr) (mw : Bytes) (r' : Reader), r'.octets = req ∧ r'.cursor ≤ req.size ∧
+      ∀ r'' S, Server.tsigAfter cfg now t mw r' (preTsigState cfg tr bufLen req) = (.ok (some r''), S) →
+      ∀ v, (v = Spec.Server.Verdict.formErr ∨ v = .notImp ∨ v = .refused ∨ v = .servFailZone) →
+        endVerdict (catKind cfg) req.size (Spec.Server.specScanWith (catKind cfg) cfg.payload req).question
+          r'.cursor ((req.getD 2 0).toNat / 8 % 16) = v →
+        ∃ b, Server.handleMessage cfg tr now bufLen req = .ok (some b) ∧
+          SignedNoData cfg.payload (Spec.Server.specScanWith (catKind cfg) cfg.payload req)
+            (Spec.Server.verdictRcode v).1 b := by
+  obtain ⟨t, mw, r', h1, h2, h3⟩ := signed_noData_response cfg tr now bufLen req hbuf hpay hreq hr hv
+  obtain ⟨b, hb⟩ := signed_response_exists cfg hcfg tr now bufLen req hbuf hpay hreq hnow hr hv
+  refine ⟨t, mw, r', h1, h2, fun r'' S hT v hvv hev => ⟨b, hb, ?_⟩⟩
+  obtain ⟨nowT, alg, key, kn, _, _, _, _, _, oe, sT, _, hsh, _, hbl⟩ := h3 r'' S hT v hvv hev b hb
+  exact signedNoData_of_list req cfg.payload _ _ (verdictRcode_lt v) oe _ _ hsh b hbl
 
 /-! ### authenticated requests that a loaded zone answers -/
 
